@@ -217,7 +217,7 @@ def switch_draw_config(rep, mir, L):
             A = RealAlg(); vm = VM(mir, A, inst={}); install_misc(vm); sname = 'MclmcSettings'
             frac = A.fresh('trajectory_switch_fraction'); nt = z3.Int('num_tune'); freq = A.fresh('subsample_frequency')
             fields = L.fields(sname); vals = {f: Opaque(f) for f in fields}
-            vals.update({'trajectory_switch_fraction': frac, 'num_tune': nt, 'subsample_frequency': freq, 'trajectory_kind': Enum(tk.index(tkind), tkind, (), 'MclmcTrajectoryKind'), 'momentum_decoherence_length': A.fresh('L'),
+            vals.update({'trajectory_switch_fraction': frac, 'num_tune': nt, 'num_draws': z3.Int('num_draws'), 'num_chains': z3.Int('num_chains'), 'seed': z3.Int('seed'), 'subsample_frequency': freq, 'trajectory_kind': Enum(tk.index(tkind), tkind, (), 'MclmcTrajectoryKind'), 'momentum_decoherence_length': A.fresh('L'),
                          'adapt_options': Struct(tuple(Opaque('ao%d' % i) for i in range(12)), 'AdaptOptionsOpaque')})
             def chain_new(vm, m, c, a): m.log('events', ('chain_new', list(a))); return ret(m, Opaque('chain'))
             vm.add_model(r'^MclmcChain::<.*>::new$', chain_new)
@@ -225,7 +225,7 @@ def switch_draw_config(rep, mir, L):
             vm.add_model(r'^TransformedHamiltonian::<.*>::new$', ham_new)
             # everything else new_chain calls builds components that do not enter the checked arguments
             vm.add_model(r'^(?!MclmcChain::|TransformedHamiltonian::<.*>::new$|<f64|<u64|f64::|core::|std::ops|std::cmp|std::num).*', lambda vm, m, c, a: ret(m, Opaque(c[:40])))
-            m = Machine(); m.ghost['events'] = []; m.pc += [nt >= 0, nt < 2 ** 32, frac.v >= 0, frac.v <= 1]
+            m = Machine(); m.ghost['events'] = []; m.pc += [nt >= 0, nt < 2 ** 32, frac.v >= 0, frac.v <= 1, z3.Int('num_draws') >= 0, z3.Int('num_draws') < 2 ** 32]
             try: outs = vm.run(fn, [Ref(m.alloc(L.make(sname, vals))), z3.Int('chain_id'), Opaque('math'), Ref(m.alloc(Opaque('rng')))], m)
             except Exception as e:
                 rep.unknown('C18 new_chain %s' % fn.header[:60], '%s: %s' % (type(e).__name__, str(e)[:200])); continue
